@@ -1,9 +1,11 @@
 /-
-  Obligation: the library's shared mutable state. Package-level variables, the fields of the
-  evaluator and of the per-call scope, and every assignment that goes through a value of a shared
-  type (evaluator, flag, segment, clause, target, context). Expected: evaluator fields are written
-  only by the option `apply` methods during construction; flags/segments only by the decoder and by
-  Preprocess* (before publication); nothing reachable from Evaluate writes to shared data.
+  Obligation: the library's shared mutable state, computed over the SSA form of the whole module.
+  `evalWrites` is every write, in any function reachable from Evaluate, to memory the writing
+  function did not allocate itself; `evalDynamicCalls` the interface methods and API callbacks an
+  evaluation invokes; `evaluatorWrites` every function that assigns a field of the shared evaluator
+  or a package-level variable. Expected (see Expected.lean): an evaluation writes only per-call
+  objects, talks to the outside only through the channels the model's state `St` records, and the
+  evaluator is written only by the option `apply` methods during construction.
 -/
 import LDEval.Generated.Facts
 import LDEval.Obligations.Expected
@@ -11,7 +13,9 @@ import LDEval.Obligations.Expected
 namespace LD.Obligations
 
 theorem package_vars : Generated.packageVars = Expected.packageVars := rfl
-theorem shared_writes : Generated.sharedWrites = Expected.sharedWrites := rfl
 theorem state_fields : Generated.stateFields = Expected.stateFields := rfl
+theorem eval_writes : Generated.evalWrites = Expected.evalWrites := rfl
+theorem eval_dynamic_calls : Generated.evalDynamicCalls = Expected.evalDynamicCalls := rfl
+theorem evaluator_writes : Generated.evaluatorWrites = Expected.evaluatorWrites := rfl
 
 end LD.Obligations
